@@ -42,6 +42,7 @@ def make_conn_class():
             self.close_calls = 0
             self.send_fault = None    # exception class raised once by the next specific_send, after it has recorded the frame
             self.send_cost = 0        # microseconds the next specific_send takes
+            self.silence_none = False  # a transport that reports silence by returning None (its documented 'bytes or None') instead of raising
 
         def open(self):
             self.opened = True
@@ -81,6 +82,8 @@ def make_conn_class():
                     raise OSError('injected connection fault')
                 return f
             self.clk.us += t
+            if self.silence_none:
+                return None
             raise TimeoutException('virtual timeout')
     return Conn
 
@@ -125,6 +128,11 @@ class Algo4:
         return bytes(reversed(seed)) + bytes([level & 0xFF, (params or 0) & 0xFF])
 
 
+class AlgoFailure(RuntimeError, TypeError):
+    """what a failing security algorithm raises: an application exception (it happens to be a TypeError as well, as errors raised
+    by 'None + bytes' or a missing table entry inside an algorithm are)"""
+
+
 def make_algo(kind, conn):
     if kind == 1:
         def algo(seed):
@@ -152,6 +160,11 @@ def make_algo(kind, conn):
             level, params = -1, -1
             conn.log.append([5, level, params] + enc_bytes(seed))
             return bytes(reversed(seed))
+        return algo
+    if kind == 7:
+        def algo(seed, params):
+            conn.log.append([5, -1, -1 if params is None else params] + enc_bytes(seed))
+            raise AlgoFailure('this tool holds no secret for that unit')      # the application's own error, raised inside the algorithm
         return algo
     if kind >= 4:
         return Algo4(conn)
@@ -219,6 +232,39 @@ def codec_classes():
                 raise DidCodec.ReadAllRemainingData
         _codec_classes = (RawCodec, RawAll)
     return _codec_classes
+
+
+def apply_codec_form(client, form):
+    """the application describes its fixed-length DIDs in another documented way; the bytes on the wire stay the same, the values it hands
+    over and gets back become tuples of integers:  1: a pack string ('>BBB')   2: a DidCodec instance built from that pack string
+    3: its own DidCodec subclass that hands the pack string to DidCodec.__init__ (so it inherits __len__) and overrides encode / decode
+    to take and give ONE tuple"""
+    from udsoncan import DidCodec
+    RawCodec, RawAll = codec_classes()
+
+    class TupleCodec(DidCodec):
+        def __init__(self, n):
+            DidCodec.__init__(self, '>' + 'B' * n)
+
+        def encode(self, value):
+            if not isinstance(value, tuple):
+                raise ValueError('one tuple expected')
+            return bytes(value)
+
+        def decode(self, payload):
+            return tuple(payload)
+    d = client.config['data_identifiers']
+    client._verif_tuple_dids = set()
+    for k in list(d):
+        if isinstance(d[k], RawCodec) and d[k].n >= 1:
+            ps = '>' + 'B' * d[k].n
+            d[k] = ps if form == 1 else (DidCodec(ps) if form == 2 else TupleCodec(d[k].n))
+            client._verif_tuple_dids.add(k)
+
+
+def did_value(client, did, raw):
+    """what the application hands to write_data_by_identifier for the bytes `raw`"""
+    return tuple(raw) if did in getattr(client, '_verif_tuple_dids', ()) else raw
 
 
 def mk_codec(shape):
@@ -403,6 +449,8 @@ def run_history_case(c, extra_cfg=None):
     client, conn, clk = make_client(cfgv, extra_cfg)
     from harness import wrappers
     client._verif_wrappers = wrappers.marked(c)      # half of the cases go through the convenience methods where one fits
+    conn.silence_none = wrappers.marked(c, 1)        # half of the cases (independently) run on a transport that returns None on silence
+    client._verif_objects = wrappers.marked(c, 2)    # half of the cases hand helper objects (Dtc, Dtc.Status, Dtc.DtcClass) where an integer is also allowed
     client._verif_reuse_objects = client._verif_reuse_memloc = ' / repeated' in c.tag     # the application keeps its argument objects
     pos = 1 + L
     nops = a[pos]
